@@ -60,6 +60,67 @@ pub fn emit(out: &mut Out, case: &Case, engine: &Engine, rules: &[PRule], resour
     }
 }
 
+/// Requests whose URL is not ASCII (the Lean model reads ASCII only): the engine's verdict against the rule-by-rule scan
+/// done here — nothing matches when no rule matches on its own, and the request is blocked when a plain blocking rule matches
+/// on its own and no exception does (lists with `badfilter` or tagged rules are left to the model-compared ASCII requests).
+pub fn scan_oracle(out: &mut Out, lines: &[String], engine: &Engine, rules: &mut [PRule], q: &Req) {
+    use adblock::filters::network::NetworkFilterMask as M;
+    if !q.req.is_supported {
+        return;
+    }
+    let v = engine.check_network_request(&q.req);
+    let mut any = false;
+    let mut plain_block = false;
+    let mut exception = false;
+    let special = M::IS_CSP | M::IS_REMOVEPARAM | M::GENERIC_HIDE | M::IS_REDIRECT;
+    let mut eligible = true;
+    for pr in rules.iter_mut() {
+        if pr.has(M::BAD_FILTER) || pr.f.verif_tag().is_some() {
+            eligible = false;
+        }
+        if !pr.matches(&q.req) {
+            continue;
+        }
+        any = true;
+        if pr.f.mask.intersects(M::IS_CSP | M::IS_REMOVEPARAM | M::GENERIC_HIDE) {
+            continue;
+        }
+        if pr.has(M::IS_EXCEPTION) {
+            // (an exception that also names a redirect resource is still an exception)
+            exception = true;
+        } else if !pr.f.mask.intersects(special) {
+            plain_block = true;
+        }
+    }
+    out.bump("non_ascii_url_scans");
+    let desc = json!({"rules": lines, "url": q.url, "source": q.src, "type": q.ty, "engine": {"matched": v.matched, "exception": v.exception, "filter": v.filter},
+        "scan": {"some_rule_matches": any, "plain_blocking_rule_matches": plain_block, "exception_matches": exception}});
+    if !any && (v.matched || v.exception.is_some() || v.redirect.is_some()) {
+        out.fail("engine-applies-a-rule-that-does-not-match", None, desc.clone());
+    }
+    if eligible && plain_block && !exception && !v.matched {
+        out.fail("engine-loses-a-matching-rule", None, desc);
+    }
+}
+
+/// a copy of the URL with a non-ASCII character put right after one of its tokens (a letter such as `é` or `広` extends the
+/// token, a character such as `—` or `€` ends it)
+pub fn non_ascii_twin(r: &mut Rng, u: &str) -> Option<String> {
+    let start = u.find("://")? + 3;
+    let path_start = start + u[start..].find('/')?;
+    let cands: Vec<usize> = (path_start + 1..=u.len()).filter(|&i| {
+        let prev = u.as_bytes()[i - 1];
+        let next = u.as_bytes().get(i).copied().unwrap_or(b'/');
+        prev.is_ascii_alphanumeric() && !next.is_ascii_alphanumeric()
+    }).collect();
+    if cands.is_empty() {
+        return None;
+    }
+    let i = cands[r.below(cands.len())];
+    let ch: &str = r.pick(&["\u{e9}", "\u{5e83}", "\u{2014}", "\u{20ac}", "\u{444}", "\u{e9}\u{e9}"]);
+    Some(format!("{}{}{}", &u[..i], ch, &u[i..]))
+}
+
 pub fn run(seed: u64, n: usize, out: &mut Out) {
     let mut r = Rng::new(seed);
     let resources = std_resources();
@@ -104,7 +165,7 @@ pub fn run(seed: u64, n: usize, out: &mut Out) {
         let mut engine = Engine::from_rules_parametrised(&lines, Default::default(), true, optimize);
         engine.use_resources(resources.clone());
         engine.use_tags(&tags.iter().map(|s| s.as_str()).collect::<Vec<_>>());
-        let rules = parse_all(&lines);
+        let mut rules = parse_all(&lines);
         if rules.is_empty() {
             continue;
         }
@@ -121,6 +182,11 @@ pub fn run(seed: u64, n: usize, out: &mut Out) {
             if let Some(su) = &scenario_url {
                 if r.pct(50) {
                     u = su.clone();
+                }
+            }
+            if let Some(tw) = if u.is_ascii() { non_ascii_twin(&mut r, &u) } else { Some(u.clone()) } {
+                if let Some(q) = make_req(&tw, &s, &t) {
+                    scan_oracle(out, &lines, &engine, &mut rules, &q);
                 }
             }
             if !u.is_ascii() {
